@@ -134,6 +134,12 @@ class Checker(object):
                 self.v("stationary_point_nonzero_gradient", "list_of_stationary_points holds a sample with non-zero gradient")
             if not any(x is t[0] and g is t[1] and v is t[2] for t in F.list_of_points):
                 self.v("stationary_not_in_points", "stationary sample missing from list_of_points")
+        # I4b: every sample whose gradient is zero is registered as a stationary point
+        for (x, g, v) in F.list_of_points:
+            if not cpoint(g) and not any(x is t[0] and g is t[1] for t in F.list_of_stationary_points):
+                self.v("zero_gradient_sample_not_registered_stationary:%s" % kind,
+                       "a %s function holds a sample with zero gradient that is missing from list_of_stationary_points (after %s)" % (kind, after_call))
+                break
         # I3 composite coherence
         if not F.get_is_leaf():
             terms = [(f, float(w)) for f, w in F.decomposition_dict.items() if w != 0]
